@@ -29,7 +29,7 @@ def make_worker(tier):
                 if len(d) > (48 if tier == 'quick' else 96):
                     continue
                 fe = features.features(b.mod, t, v)
-                mask = 'uper,oer' if 'has_SET' in fe else ('oer' if 'k:ObjectDescriptor' in fe else '')
+                mask = ''   # (types without a PER/OER codec used to crash here; repaired, so nothing is masked any more)
                 items.append((c, 'ber', d, v, fe, mask))
                 if not mask:
                     for syn, fn in (('oer', oer.encode), ('uper', uper.encode)):
